@@ -3,6 +3,9 @@
 From Coq Require Import ZArith QArith Qcanon List Bool.
 From EXV Require Import Base.Scalar Base.FieldLemmas Base.Cplx Exec.Codec.
 From EXV Require Import Exec.EntryC19.
+From EXV Require Import Exec.EntryC07.
+From EXV Require Import Exec.EntryC06.
+From EXV Require Import Exec.EntryC18.
 From EXV Require Import Utils.Rollout Gen.ETDRK Gen.Guards Spectral.Symbols Gen.GenericUtils Steppers.Linear Layout.Freq Nonlin.Conv Nonlin.Terms Spectral.Operators Nonlin.Injection Spectral.Spectrum Layout.Resample.
 Import ListNotations.
 Local Open Scope Z_scope.
@@ -310,6 +313,9 @@ Definition run (id : Z) (a : list Q) : list Q :=
   | 12 => run_c12 sub a
   | 17 => run_c17 sub a
   | 19 => run_c19 sub a
+  | 7 => run_c07 sub a
+  | 6 => run_c06 sub a
+  | 18 => run_c18 sub a
   | 1 => match sub with 1 => run_sym a | 2 => run_wave a | _ => [] end
   | 13 => match sub with 1 => run_conv a | _ => [] end
   | _ => []
